@@ -1,5 +1,5 @@
 # replay of a bounded stand-in violation (C13): re-run native/c13_tdm.py
 import sys
-print("calls ('roll', 'roll', 'space1'): the program no longer runs: IndexError: list index out of range")
+print('single band N=3, 3 time bins, dagger=False: the register-shifting unrolled program and the hand-written fresh-mode loop leave the in-flight modes in different states (max mean diff 0.134, cov diff 1.69)')
 print('REPLAY-VIOLATION')
 sys.exit(1)
